@@ -4,6 +4,7 @@ import (
 	"sort"
 	"fmt"
 	"go/token"
+	"go/types"
 	"strings"
 
 	"golang.org/x/tools/go/ssa"
@@ -227,13 +228,34 @@ func (c *Ctx) ruleCondStores() {
 								lt := c.eng.tt.mk(Term{K: "B", S: "<", A: c.intConst(0), B: c.eng.tt.mk(Term{K: "LEN", A: fa.term(s, call)})})
 								if v, k := fa.knownTerm(s, aTR, lt); k && v {
 									need[call.Call.Method.Name()] = true
+								} else if c.provesFact(fa, s, Fact{aTR, lt, true}, nil) {
+									need[call.Call.Method.Name()] = true // e.g. established as len(...) == 0 being false
 								}
 							}
 						}
 						return need["Context"] && need["String"]
 					})
+					// no method of the offered operator is called while it may be a nil pointer inside the
+					// interface (a value-receiver method called through it panics in the runtime's wrapper)
 					if good {
-						rep.ok("R-CONDSTORE", relName(fn), construct, pos, "the argument is stored only when it is non-nil and both Context() and String() are non-empty")
+						for _, bb := range fn.Blocks {
+							for _, i2 := range bb.Instrs {
+								call, ok := i2.(*ssa.Call)
+								if !ok || !call.Call.IsInvoke() || call.Call.Value != fn.Params[1] {
+									continue
+								}
+								if !fa.allHold(call, func(s *State) bool { return c.nilPtrTestedFalse(fn, fa, s, fn.Params[1]) }) {
+									good = false
+									rep.bad("R-CONDSTORE", relName(fn), ord.next("invoke "+call.Call.Method.Name()+" on the offered operator"), c.p.instrPos(call), "a method of the offered operator is called although it may be a nil pointer wrapped in the interface (no test for that on this path)")
+								}
+							}
+						}
+						if !good {
+							continue
+						}
+					}
+					if good {
+						rep.ok("R-CONDSTORE", relName(fn), construct, pos, "the argument is stored only when it is non-nil, not a nil pointer, and both Context() and String() are non-empty")
 					} else {
 						rep.bad("R-CONDSTORE", relName(fn), construct, pos, "an operator can be stored without being non-nil with non-empty Context() and String()")
 					}
@@ -500,4 +522,78 @@ func (c *Ctx) knownCmp(fa *FnAnalysis, st *State, a, b *Term) (bool, bool) {
 		return false, true
 	}
 	return false, false
+}
+
+// nilPtrTestedFalse: on this path an in-package predicate that is true for
+// every nil pointer (checked on its body: it returns reflect's IsNil() of its
+// argument whenever the argument's kind is Ptr) has said no about v.
+func (c *Ctx) nilPtrTestedFalse(fn *ssa.Function, fa *FnAnalysis, s *State, v ssa.Value) bool {
+	vt := fa.term(s, v)
+	for _, b := range fn.Blocks {
+		for _, in := range b.Instrs {
+			call, ok := in.(*ssa.Call)
+			if !ok || len(call.Call.Args) != 1 {
+				continue
+			}
+			g := c.p.callee(&call.Call)
+			if g == nil || !c.p.inPkg(g) || !c.isNilPtrPredicate(g) {
+				continue
+			}
+			at := fa.term(s, call.Call.Args[0])
+			for at != nil && (at.K == "MI" || at.K == "CV") {
+				at = at.A
+			}
+			if at != vt {
+				continue
+			}
+			if r, known := fa.knownTerm(s, aTR, fa.term(s, call)); known && !r {
+				return true
+			}
+		}
+	}
+	return false
+}
+
+func (c *Ctx) isNilPtrPredicate(g *ssa.Function) bool {
+	if c.nilPtrPred == nil {
+		c.nilPtrPred = map[*ssa.Function]bool{}
+	}
+	if v, ok := c.nilPtrPred[g]; ok {
+		return v
+	}
+	res := false
+	defer func() { c.nilPtrPred[g] = res }()
+	sig := g.Signature
+	if sig.Params().Len() != 1 || sig.Results().Len() != 1 || len(g.Blocks) == 0 {
+		return false
+	}
+	if bt, ok := sig.Results().At(0).Type().Underlying().(*types.Basic); !ok || bt.Kind() != types.Bool {
+		return false
+	}
+	fa := c.eng.analyze(g, nil)
+	tt := c.eng.tt
+	vo := tt.mk(Term{K: "VALOF", A: tt.mk(Term{K: "P", N: 0, S: g.Params[0].Name()})})
+	isnil := tt.mk(Term{K: "ISNIL", A: vo})
+	kindPtr := tt.mk(Term{K: "B", S: "==", A: tt.mk(Term{K: "KIND", A: vo}), B: c.intConst(kPtr)})
+	n := 0
+	for _, rs := range fa.rets {
+		if rs.st.dead {
+			continue
+		}
+		n++
+		rt := fa.term(rs.st, rs.ret.Results[0])
+		if rt == isnil {
+			continue // the verdict is IsNil() itself
+		}
+		if v, known := fa.knownTerm(rs.st, aTR, rt); known && v {
+			continue // says "nil pointer": always safe
+		}
+		// says no (or unknown): only allowed where the kind is known not to be Ptr
+		if v, known := fa.knownTerm(rs.st, aTR, kindPtr); known && !v {
+			continue
+		}
+		return false
+	}
+	res = n > 0
+	return res
 }
